@@ -282,6 +282,15 @@ def build_cases(tier="quick"):
         ref.append(Case(f"{PROP}/__main__.run_test#path-loop", c.case, c.harness, sources=c.sources))
     for c in c05.verdict_cases():
         ref.append(Case(f"{PROP}/__main__.run_test#verdict", c.case, c.harness, sources=c.sources))
+    # the printed parameter bounds are the size candidates: the symbolic payload must cover the largest one
+    # (C12 contract of Calldata.encode), and every test starts from its own copy of the post-setUp state (C20)
+    from contracts import c12, c20
+
+    for c in c12.encode_cases():
+        ref.append(Case(f"{PROP}/calldata.Calldata.encode#bounds", c.case, c.harness, replay=c.replay, sources=c.sources))
+    for c in c20.fork_cases():
+        if c.unit.endswith("sevm.SEVM.run_message"):
+            ref.append(Case(f"{PROP}/sevm.SEVM.run_message#test-start-state", c.case, c.harness, replay=c.replay, sources=c.sources))
     return panic_cases() + fail_flag_cases() + handler_cases() + setup_cases() + ref
 
 
